@@ -76,6 +76,103 @@ def _replay_wrapper(inp):
     return env, out
 
 
+def _until_contract(fn):
+    return Contract(
+        id='C01.Script.%s.until' % fn, prop='C01',
+        clause='an until-position outside the text is rejected with ValueError (or the refactoring\'s own '
+               'RefactoringError), never with an internal exception such as IndexError',
+        file='jedi/api/__init__.py', qualname='Script.' + fn,
+        params={'self': Obj('Script'), 'line': INT, 'column': INT, 'new_name': STR,
+                'until_line': Opt(INT), 'until_column': Opt(INT)},
+        families=['Script'], ret=ANY,
+        requires=['len(self._code_lines) >= 1', '1 <= line and line <= len(self._code_lines)'],
+        raises={'ValueError': None, 'RefactoringError': None},
+        names={fn: FnSpec(fn, params=[('inference_state', ANY), ('path', ANY), ('module', ANY), ('name', STR),
+                                      ('pos', POS), ('until_pos', Opt(POS))], ret=ANY,
+                          raises=['RefactoringError', 'ValueError'], assumed=False,
+                          note='the refactoring proper: RefactoringError, or parso\'s ValueError for a position '
+                               'outside the module')},
+        allow_callee_exceptions=False,
+        witness={'lines': 'self._code_lines', 'line': 'line', 'column': 'column', 'until_line': 'until_line',
+                 'until_column': 'until_column'},
+        replay=lambda inp, fn=fn: _replay_until(fn, inp),
+        witness_library=[{'lines': ['x = 1 + 2\n', 'y = x\n', 'z = 3\n'], 'line': 1, 'column': 4,
+                          'until_line': ul, 'until_column': None} for ul in (9, -5, 0, 4, 3)],
+    )
+
+
+def _replay_until(fn, inp):
+    from pyvc.replay import run_real
+    import jedi
+    code = ''.join(inp['lines'])
+    s = jedi.Script(code)
+    out = run_real(lambda: getattr(s, fn)(inp['line'], inp['column'], new_name='n',
+                                          until_line=inp['until_line'], until_column=inp['until_column']))
+    return {'self': s, 'line': inp['line']}, out
+
+
+_Script_extra_attrs = {'_inference_state': ANY, 'path': ANY, '_module_node': ANY}
+
+
+def _structural_decorators(repo):
+    """(b) every positional query of Script sits behind validate_line_column, or hands its position to one that does"""
+    import ast
+    import os
+    out = []
+    try:
+        tree = ast.parse(open(os.path.join(repo, 'jedi/api/__init__.py'), encoding='utf-8').read())
+    except (OSError, SyntaxError) as e:
+        return [{'id': 'decorators', 'kind': 'call-pre', 'ok': None, 'label': 'cannot parse: %s' % e}]
+    cls = [n for n in tree.body if isinstance(n, ast.ClassDef) and n.name == 'Script']
+    if not cls:
+        return [{'id': 'decorators', 'kind': 'call-pre', 'ok': None, 'label': 'class Script not found'}]
+    methods = {f.name: f for f in cls[0].body if isinstance(f, ast.FunctionDef)}
+    decorated = {n for n, f in methods.items()
+                 if any(ast.unparse(d) == 'validate_line_column' for d in f.decorator_list)}
+    positional = [n for n, f in methods.items() if not n.startswith('_')
+                  and {'line', 'column'} <= {a.arg for a in f.args.args}]
+    for n in sorted(positional):
+        f = methods[n]
+        ok = n in decorated
+        if not ok:
+            # delegation: the first statement that uses line/column passes them to a decorated method of self
+            src = ast.unparse(f)
+            ok = any(('self.%s(line, column' % d) in src for d in decorated)
+            uses = [x for x in ast.walk(f) if isinstance(x, ast.Name) and x.id in ('line', 'column')
+                    and isinstance(x.ctx, ast.Load)]
+            # every use of line/column is an argument of such a call
+            calls = [c for c in ast.walk(f) if isinstance(c, ast.Call) and isinstance(c.func, ast.Attribute)
+                     and isinstance(c.func.value, ast.Name) and c.func.value.id == 'self' and c.func.attr in decorated]
+            inside = {id(a) for c in calls for a in c.args if isinstance(a, ast.Name)}
+            ok = ok and all(id(u) in inside for u in uses)
+        out.append({'id': 'decorated:' + n, 'kind': 'call-pre', 'ok': ok,
+                    'label': '(b) Script.%s validates its position: decorated with validate_line_column or passing '
+                             'line/column only to a decorated query' % n})
+    expected = {'complete', 'infer', 'goto', 'help', 'get_references', 'get_signatures', 'get_context'}
+    out.append({'id': 'positional-queries-present', 'kind': 'inventory', 'ok': None if not expected <= set(positional) else True,
+                'label': 'the positional queries named by the property exist', 'detail': repr(sorted(positional))})
+    return out
+
+
+STRUCTURAL = [_structural_decorators]
+
+_errors = [
+    Contract(id='C01.SyntaxError.' + n, prop='C01', clause='result attributes of get_syntax_errors complete normally',
+             file='jedi/api/errors.py', qualname='SyntaxError.' + n, params={'self': Obj('JErr')},
+             families=['JErr', 'PErr'], ret=INT,
+             ensures=['result == self._parso_error.%s[%d]' % (a, i)])
+    for n, a, i in (('line', 'start_pos', 0), ('column', 'start_pos', 1), ('until_line', 'end_pos', 0),
+                    ('until_column', 'end_pos', 1))]
+
+FAMILIES += [Family('JErr', attrs={'_parso_error': Obj('PErr')}),
+             Family('PErr', attrs={'start_pos': POS, 'end_pos': POS, 'message': STR})]
+FAMILIES[0].attrs.update(_Script_extra_attrs)
+FAMILIES[0].methods['_get_module_context'] = FnSpec('Script._get_module_context', ret=ANY, pure=True, assumed=True)
+
+NOT_DECIDED = ['exceptions raised inside type inference proper (inference/syntax_tree.py, values, gradual)',
+               'RecursionError (see C15)', 'API helper exception-escape obligations under the parso model: in progress']
+TRUSTED = ['parso.split_lines(keepends=True) never returns an empty list']
+
 CONTRACTS = [
     Contract(
         id='C01.validate_line_column', prop='C01',
@@ -95,4 +192,5 @@ CONTRACTS = [
         witness={'lines': 'self._code_lines', 'line': 'line', 'column': 'column'},
         replay=_replay_wrapper,
     ),
-]
+    _until_contract('extract_variable'), _until_contract('extract_function'),
+] + _errors
